@@ -326,7 +326,7 @@ def classify(events, obs, exc) -> List[str]:
                 return ["C16/" + d for d in devs]
     exp = list(run_model(events).out)
     last = events[-1][0] if events else ""
-    return ["C16/unclassified:" + ",".join(diff(exp, obs)) + "@" + last]
+    return ["C16/unclassified:" + ",".join(sorted(diff(exp, obs))) + "@" + last]
 
 
 # ------------------------------------------------------------------ alphabet: graphics state search
